@@ -243,6 +243,8 @@ fn add_spec(c: &mut Command, spec: &str) -> Option<Result<(), String>> {
             c.add_argument(Cow::<str>::Borrowed(&s))
         }
         "r" => c.add_argument(Raw(unhex(val))),
+        // a hand-made catch-all tag: it renders its text verbatim, so it is checked like any other argument
+        "t" => c.add_argument(mpd_client::tag::Tag::Other(unhex_str(val)?.into())),
         "b" => c.add_argument(val == "1"),
         "u8" => c.add_argument(val.parse::<u8>().ok()?),
         "u16" => c.add_argument(val.parse::<u16>().ok()?),
@@ -321,6 +323,7 @@ pub fn run(toks: &[&str]) -> String {
                         "S" => before.argument(unhex_str(val)?),
                         "c" => before.argument(Cow::<str>::Owned(unhex_str(val)?)),
                         "r" => before.argument(Raw(unhex(val))),
+                        "t" => before.argument(mpd_client::tag::Tag::Other(unhex_str(val)?.into())),
                         _ => return None,
                     };
                     Some(sent_bytes(&c2))
